@@ -576,7 +576,9 @@ pub fn c08_sched(thorough: bool) -> Vec<Unit> {
         ("huge-payload-batch‖pub", vec![vec![PublishBig(T0, 3, 1200 * 1024)], vec![Publish(T0, 1), Publish(T0, 1)]], (0, 0)),
     ];
     for (n, p, caps) in progs {
-        let dd = if n.contains("batch") { 2 } else if p.len() >= 4 { d - 1 } else { d };
+        // the two largest programs (4 publishes / 3 publishes + a stream) run one level lower in the quick tier
+        let heavy = n == "cap1:pub;pub‖pub;pub" || n == "pub‖pub‖stream";
+        let dd = if n.contains("batch") { 2 } else if p.len() >= 4 || (heavy && !thorough) { d - 1 } else { d };
         v.push(explore_unit(format!("sched/{}", n), format!("{:?} (mailbox capacity {:?}); one id per message in request order, ids follow the real-time order of publishes, first deliveries on each subscription (hand-out order) follow id order", p, caps), Bounds::new(dd), ExecCfg { caps, ..Default::default() }, c01_c08_scenario(n, p, true, None)));
     }
     v
